@@ -3,6 +3,10 @@
 import json
 
 ARMED = {
+ "C08": ("op × structure matrix by must-pass-through on success exits (with per-iteration loop obligations); version-argument provenance over all single-version labelmap functions; ancestry-slice/position agreement of the mapping visibility tables; error-only edges of existence and membership tests; store-write ⇒ cache-operation path search with callee summaries; provenance of the aggregated delta table",
+         "Static decision of necessary conditions of 'label indices, voxels and mappings stay consistent under proofreading': merge, renumber, cleave, split and supervoxel split pass on every success exit through their mapping update, index writes/deletes and block rewrite (R8.1); every version handed to a callee in a single-version labelmap function is the function's own (R8.2); the visibility table cached for a version is built from that version's own ancestry, the nearest visible version wins, and each version's log is replayed under that version (R8.3); a missing index or a request-named supervoxel outside the body ends the operation with an error (R8.4); every store write/delete of a label index is followed by the update or invalidation of its cache entry (R8.5); block writes feed the whole aggregated count table to the index of every affected body (R8.6). Level 'other': that counts, sparse volumes and mapped reads equal a voxel scan, and the arithmetic of split/cleave index surgery, are value-level and not decided.",
+         "Trusts go/ssa; functions handling several versions (ancestry walks, messages) are outside R8.2; storage failures between the steps of an operation are not modelled.",
+         "DESIGN.md §2 C08"),
  "C19": ("store-object provenance of every write/scan of the copy engines (def-use roots through closures and type assertions); rewrite-before-raw-put must-pass-through; scan-bound provenance; silent-drop path search in the writer goroutines; loop-entry phi check of the dedupe reference; wait-before-success path search",
          "Static decision of necessary conditions of 'copying a data instance preserves its versioned content': every write of copyData/copyVersions/TransferData is on the destination store and every scan on the source store, CopyInstance passes the stores of the source and of the new instance in that order, and the flattened copy writes under the destination instance at the scanned version (R19.1); a raw key reaches RawPut only after the instance (and version) rewrite of that key (R19.2); the raw scan covers the source instance's whole key range with values, no received pair is dropped except by the filter, the version set or a reported error, tombstones are not singled out, the dedupe reference is reset per key, and the flattened scan covers the whole TKey range and forwards every chunk (R19.3); CopyInstance invokes the new instance's PropertyCopier with the source and saves it, and in-scope types with persisted properties implement it (R19.4); engines return success only after their writer goroutine finished and the end marker is always sent (R19.5). Level 'other': equality of reads at every version for every history, filter semantics and the version-path arithmetic of copyVersions are not decided.",
          "Trusts go/ssa; store identity by parameter provenance (no pointer analysis); labelsz and tarsupervoxels lack a PropertyCopier but are outside the property's quantifier (reported as notes).",
